@@ -185,7 +185,7 @@ def _check_double(prog: programs.Program, seed: int, rec: dict[str, Any]) -> Non
         return
     draws = [("benign", "benign"), ("f64only", "benign"), ("uniform", "benign")]
     res = programs.differential(prog, draws, seed=seed, eps_floor=EPS64, K=K64)
-    if res.get("model") is not None and registry.model_is_random(res["model"]):
+    if res.get("random"):
         rec["obs"]["random_model_skipped"] = 1
         return
     r2 = recs.record_from_differential(prog, res, tag="double:")
